@@ -57,7 +57,12 @@ pub fn literal<'a>() -> impl Parser<'a, &'a str, Literal, Err<'a>> + Clone {
 
         let float = just("-")
             .or_not()
-            .then(text::int(10).then_ignore(just(".")).then(text::int(10)))
+            // the fraction is a run of digits, it may start with zeros (0.05)
+            .then(
+                text::int(10)
+                    .then_ignore(just("."))
+                    .then(text::digits(10).to_slice()),
+            )
             .map(|(sign, (i, f))| {
                 let sign = sign.unwrap_or_default();
                 Literal::Float(format!("{sign}{i}.{f}").parse::<f64>().expect("infallible"))
